@@ -212,12 +212,31 @@ Definition decide_req (reachable : bool) (nact maxs : Z) (fs : list field) : dec
   else DAccept (a_tset a) (fix_authority (a_md a)) (a_path a).
 
 (* ---- the connection as a state machine ---- *)
-(* stream states: 0 streamActive, 1 streamReadDone,
+(* stream states: 0 streamActive,
+     1 streamReadDone by END_STREAM on the HEADERS (nothing has been put into the stream's recvBuffer),
+     5 streamReadDone by END_STREAM on a DATA frame (io.EOF has been put: recvBuffer.err is set),
    streamDone but still in t.activeStreams because the END_STREAM trailers have not been written:
-     2 loopy is gone,
      3 / 4 loopy holds DATA + trailers behind the stream's send window (3: the stream was
            streamActive when it finished, RST_STREAM(NO_ERROR) follows the trailers; 4: it was
-           streamReadDone) *)
+           streamReadDone),
+     7 / 8 = 3 / 4 with recvBuffer.err set (io.EOF was put before or after the finish),
+   20 / 21 / 25 = 0 / 1 / 5 detached: a truncated HEADERS frame for the stream made loopy forget
+           it (cleanupStream deletes it from estdStreams) while it stays in t.activeStreams;
+           loopy drops every later frame of its response,
+     2 / 6 streamDone and never to be flushed (finished while detached, or detached while
+           blocked): stays in t.activeStreams until the connection goes; 6 = with recvBuffer.err set *)
+Definition detached (s : Z) : bool := 20 <=? s.
+Definition is_done (s : Z) : bool := negb ((s =? 0) || (s =? 1) || (s =? 5) || detached s).
+Definition read_done (s : Z) : bool := (s =? 1) || (s =? 5) || (s =? 21) || (s =? 25).
+Definition detach_state (s : Z) : Z :=
+  if s =? 0 then 20 else if s =? 1 then 21 else if s =? 5 then 25
+  else if (s =? 3) || (s =? 4) then 2 else if (s =? 7) || (s =? 8) then 6 else s.
+Definition is_blocked (s : Z) : bool := (s =? 3) || (s =? 4) || (s =? 7) || (s =? 8).
+Definition rst_after (s : Z) : bool := (s =? 3) || (s =? 7).
+Definition eof_put (s : Z) : bool := (s =? 5) || (s =? 6) || (s =? 7) || (s =? 8) || (s =? 25).
+(* state of a stream that finishes while its response cannot be flushed *)
+Definition fin_blocked (s : Z) : Z := if s =? 0 then 3 else if s =? 1 then 4 else 8.
+
 Record sstate := mkst {
   s_max : Z;                     (* t.maxStreamID *)
   s_active : list (Z * Z);       (* t.activeStreams: (id, stream state) *)
@@ -258,6 +277,11 @@ Definition window (cfg : config) (st : sstate) (sid : Z) : Z :=
 Definition with_win (st : sstate) (sid d : Z) : sstate :=
   mkst (s_max st) (s_active st) (s_handled st) (s_mode st) (s_post st) ((sid, d) :: del_stream sid (s_win st)).
 
+Definition detach (st : sstate) (sid : Z) : sstate :=
+  match find_stream sid (s_active st) with
+  | Some s => with_active st (set_stream sid (detach_state s) (s_active st))
+  | None => st
+  end.
 (* HandleStreams on http2.StreamError{sid, code}: close the active stream or just RST *)
 Definition stream_error (st : sstate) (sid code : Z) : sstate * list Z :=
   (with_active st (del_stream sid (s_active st)), out st (ev_rst sid code)).
@@ -278,7 +302,9 @@ Definition headers_step (cfg : config) (st : sstate) (sid : Z) (ended : bool) (f
   : sstate * list Z :=
   match read_meta (c_limit cfg) fs with
   | MStreamErr => stream_error st sid E_PROTOCOL
-  | MFrame l true => (st, out st (ev_rst sid E_FRAME_SIZE))
+  | MFrame l true =>
+    (* cleanupStream{rst, FRAME_SIZE}: loopy also forgets the stream if it knows it *)
+    (if alive st then detach st sid else st, out st (ev_rst sid E_FRAME_SIZE))
   | MFrame l false =>
     if Z.even sid || (sid <=? s_max st) then
       (* illegal stream id: GOAWAY(maxStreamID, PROTOCOL), state = draining, loopy exits *)
@@ -312,9 +338,16 @@ Definition finish_op (cfg : config) (st : sstate) (sid : Z) (wr : option Z) : ss
   match find_stream sid (s_active st) with
   | None => (st, [])
   | Some s =>
-    if 2 <=? s then (st, [])           (* streamDone: Write and WriteStatus return at once *)
-    else if c_tiny cfg then (with_active st (del_stream sid (s_active st)), out st (ev_rst sid E_INTERNAL))
-    else if alive st then
+    if is_done s then (st, [])         (* streamDone: Write and WriteStatus return at once *)
+    else if negb (alive st) then (st, [])
+      (* loopy has exited and closed the control buffer (loopyWriter.run's deferred cbuf.finish):
+         executeAndPut fails with ErrConnClosing before the header-list check, Write / WriteStatus
+         return that error and the stream is left as it is, in t.activeStreams *)
+    else if c_tiny cfg then (with_active st (del_stream sid (s_active st)), ev_rst sid E_INTERNAL)
+    else if detached s then
+      (* loopy does not know the stream: response frames and trailers are dropped, onWrite never runs *)
+      (with_active st (set_stream sid (if s =? 25 then 6 else 2) (s_active st)), [])
+    else
       let fin := if s =? 0 then ev_rst sid E_NO else [] in
       match wr with
       | None => (with_active st (del_stream sid (s_active st)), ev_hdr sid 200 0 ++ fin)
@@ -325,10 +358,26 @@ Definition finish_op (cfg : config) (st : sstate) (sid : Z) (wr : option Z) : ss
         if 0 <=? w then
           (with_active st (del_stream sid (s_active st)), ev_hdr sid 1200 (-1) ++ ev_hdr sid (-1) 0 ++ fin)
         else
-          (with_active (with_win st sid (w - w0 cfg)) (set_stream sid (3 + s) (s_active st)),
+          (with_active (with_win st sid (w - w0 cfg)) (set_stream sid (fin_blocked s) (s_active st)),
            ev_hdr sid 1200 (-1))
       end
-    else (with_active st (set_stream sid 2 (s_active st)), [])
+  end.
+
+(* handleData for an empty DATA frame.  On END_STREAM it runs s.write(recvMsg{err: io.EOF}) unless the
+   stream is streamReadDone (then closeStream).  For a stream that is streamDone but still in
+   t.activeStreams the state does not change; recvBuffer.put records the first io.EOF
+   (recvBuffer.err) and drops every later one (since 1b83f43 without touching the nil buffer of
+   the EOF message; before, that was a nil-pointer panic of the reader goroutine). *)
+Definition data_op (st : sstate) (sid : Z) (ended : bool) : sstate * list Z :=
+  match find_stream sid (s_active st) with
+  | None => (st, [])
+  | Some s =>
+    if read_done s then
+      (with_active st (del_stream sid (s_active st)), out st (ev_rst sid E_STREAM_CLOSED))
+    else if negb ended then (st, [])
+    else if (s =? 0) || (s =? 20) then (with_active st (set_stream sid (s + 5) (s_active st)), [])
+    else if eof_put s then (st, [])        (* a second END_STREAM: dropped by recvBuffer.put *)
+    else (with_active st (set_stream sid (s + 4) (s_active st)), [])
   end.
 
 Definition exec_op (cfg : config) (st : sstate) (o : op) : sstate * list Z :=
@@ -346,18 +395,13 @@ Definition exec_op (cfg : config) (st : sstate) (o : op) : sstate * list Z :=
       | None => (st, [])
       | Some s =>
         let w := window cfg st sid + inc in
-        if (3 <=? s) && (0 <=? w) then
+        if is_blocked s && (0 <=? w) then
           (with_active st (del_stream sid (s_active st)),
-           ev_hdr sid (-1) 0 ++ (if s =? 3 then ev_rst sid E_NO else []))
+           ev_hdr sid (-1) 0 ++ (if rst_after s then ev_rst sid E_NO else []))
         else (with_win st sid (w - w0 cfg), [])
       end
     else (st, [])
-  | OData sid ended =>
-    match find_stream sid (s_active st) with
-    | None => (st, [])
-    | Some 1 => (with_active st (del_stream sid (s_active st)), out st (ev_rst sid E_STREAM_CLOSED))
-    | Some s => if ended && (s =? 0) then (with_active st (set_stream sid 1 (s_active st)), []) else (st, [])
-    end
+  | OData sid ended => data_op st sid ended
   | OConnErr => (mkst (s_max st) [] (s_handled st) 2 (s_post st) (s_win st), [8; 0; 0; 0])
   | OWinUpd sid => stream_error st sid E_PROTOCOL
   end.
@@ -468,7 +512,7 @@ Fixpoint has_event (tag : Z) (ev : list Z) (fuel : nat) : bool :=
     | _ => false
     end
   end.
-Definition down_event (ev : list Z) : bool := has_event 7 ev 8 || has_event 8 ev 8.
+Definition down_event (ev : list Z) : bool := has_event 7 ev 8 || has_event 8 ev 8 || has_event 66 ev 8.
 
 (* clause ids:
    1 handler invoked only by a HEADERS frame with a legal stream id, at most once per frame
@@ -481,7 +525,8 @@ Definition down_event (ev : list Z) : bool := has_event 7 ev 8 || has_event 8 ev
      s_active: streams handed to a handler whose end - END_STREAM trailers or RST_STREAM from
      the server, RST_STREAM from the client - has not been on the wire; a finished stream whose
      response waits for flow-control window counts)
-   9 handler => no invalid content-type field at all (literal reading; see C12_mixed_content_type_refuted) *)
+   9 handler => no invalid content-type field at all (literal reading; see C12_mixed_content_type_refuted)
+   10-12: see clause_model *)
 Definition clause_op (cfg : config) (p : cstate) (w ob : word) : list (Z * Z * bool) * cstate :=
   match ob with
   | n :: h :: m :: ev =>
@@ -508,14 +553,34 @@ Definition clause_op (cfg : config) (p : cstate) (w ob : word) : list (Z * Z * b
   end.
 
 (* clause 10: the situation (connection alive, legal id, admissible request, limit reached) is
-   classified on the model state [st] reached by the op history; what happened (handler
-   counter, frames) is the observation's *)
+   classified on the model state [st] reached by the op history (and the implementation has not
+   been seen going down - GOAWAY, close, panic - before: the driver stops sending then); what
+   happened (handler counter, frames) is the observation's *)
+(* clauses 11 / 12 ("the server never panics"; the driver reports a panic of the transport as event
+   66 of the op during which it happened):
+   11 no panic on a DATA frame with END_STREAM for a stream that has finished but is still in
+      t.activeStreams and has already been sent END_STREAM (classified on the model state:
+      stream states 6-8) - the frame class of the defect repaired by 1b83f43
+   12 no panic at all *)
+Definition second_end_stream (st : sstate) (o : op) : bool :=
+  match o with
+  | OData sid true => match find_stream sid (s_active st) with
+                      | Some s => is_done s && eof_put s
+                      | None => false
+                      end
+  | _ => false
+  end.
 Definition clause_model (cfg : config) (st : sstate) (p : cstate) (w ob : word) : list (Z * Z * bool) :=
   match decode_op (c_limit cfg) w, ob with
-  | Some (OHeaders sid ended fs), n :: h :: m :: ev =>
-    [ (10, sid, negb (alive st && legal_id (s_max st) sid && admissible (c_limit cfg) fs &&
-                      (c_maxs cfg <=? lenZ (s_active st)))
-                || (negb (p_h p <? h) && word_eqb ev (ev_rst sid E_REFUSED))) ]
+  | Some o, n :: h :: m :: ev =>
+    let seen := has_event 66 ev 8 in
+    match o with
+    | OHeaders sid ended fs =>
+      [ (10, sid, negb (alive st && negb (p_down p) && legal_id (s_max st) sid && admissible (c_limit cfg) fs &&
+                        (c_maxs cfg <=? lenZ (s_active st)))
+                  || (negb (p_h p <? h) && word_eqb ev (ev_rst sid E_REFUSED))) ]
+    | _ => []
+    end ++ [ (11, 0, negb (second_end_stream st o && seen)); (12, 0, negb seen) ]
   | _, _ => []
   end.
 Definition model_next (cfg : config) (st : sstate) (w : word) : sstate :=
